@@ -155,6 +155,10 @@ def run(ctx):
             # two aromatic rings joined by a single bond (it has to be written '-')
             c = gen_mol.cut_case(rng, nmin=12, nmax=14, aromatic_p=1.0, biaryl_p=1.0)
             ctx.feature('aa-fragments:biaryl')
+        elif rng.random() < 0.2:
+            # a thioether / amine on an aromatic ring: an upper-case atom directly followed by a lower-case one ('Sc', 'Nc')
+            c = gen_mol.cut_case(rng, nmin=8, nmax=12, aromatic_p=1.0, thio_p=1.0)
+            ctx.feature('aa-fragments:thioether')
         else:
             c = gen_mol.cut_case(rng, nmax=10, aromatic_p=0.2, share_p=rng.choice([0, 0, 0.3]))
         block = '{' + c['s'].split('}.{', 1)[1]
